@@ -21,7 +21,7 @@ PROPS = {
                 explanation="CELSIUS offset constant and both FAHRENHEIT closures against the defining formulas (TABLES); apply_conversion Offset/Methods arms, check_offset, Compound::factor chain postcondition and offset guard, Compound::mul offset guard (COMPOUND); formulas, composition, inverse as lemmas over those contracts"),
     "C17": dict(units=[], kani="ids", standin=True, level="proof",
                 explanation="Kani function contract on the real id_to_derived (every u32 id decodes to a unit carrying that id), every Derived static decodes through its own id to itself, ids equal the pinned list; serde derive output is a bounded stand-in"),
-    "C07": dict(units=["FROMSTR"], standin=True, level="proof",
+    "C07": dict(units=["FROMSTR", "LEXER"], standin=True, level="proof",
                 explanation="impl FromStr for Rational proved against an independent literal grammar (spec/lit_spec.rs): Ok(q) => q is exactly the number the byte string spells; every literal of the grammar with an exponent <= u32::MAX is accepted; unbounded loops closed by invariants; NUMBER/PERCENTAGE arms of eval() and the lexer's choice of extent are bounded-checked"),
     "C06": dict(units=["PARSER", "GRAMMAR"], standin=True, level="exploration",
                 explanation="bounded enumeration of operator sequences x parenthesisations x blank layouts against an independent precedence-climbing evaluator; proved components: op() priority table, skip bookkeeping of Parser::{count_skip,skip,eat}, operation()/value()/call_arguments() skip contracts"),
